@@ -106,7 +106,7 @@ func runVerify(repo, prop, tier string, funcs []string, speclib string) (*Verify
 		if fc.File == "" || !strings.HasSuffix(fc.File, "zz_verif_contracts.go") {
 			continue
 		}
-		if fc.Trusted && len(fc.NeverReads) == 0 && len(fc.CallsOnly) == 0 && fc.Cancellable == "" {
+		if fc.Trusted && len(fc.NeverReads) == 0 && len(fc.CallsOnly) == 0 && fc.Cancellable == "" && len(fc.Hooks) == 0 {
 			continue
 		}
 		if len(funcs) > 0 {
